@@ -116,6 +116,20 @@ impl Scheduler for ReplayScheduler {
                         } else {
                             return Some(next);
                         }
+                    } else if self.target_clock.is_some() {
+                        // The recorded step belongs to a task that does not exist (or cannot run) in this
+                        // restricted replay because steps it depends on were skipped as irrelevant to the
+                        // target. It is irrelevant too: skip it, and the random steps it made, and go on,
+                        // so that later steps the target does depend on are still replayed.
+                        self.steps += 1;
+                        let mut skipped = 1;
+                        while let Some(ScheduleStep::Random) = self.schedule.steps.get(self.steps) {
+                            skipped += 1;
+                            self.steps += 1;
+                            self.data_source.next_u64();
+                        }
+                        self.steps_skipped += skipped;
+                        continue;
                     } else {
                         assert!(
                             self.allow_incomplete,
